@@ -315,32 +315,62 @@ def run(tier: str, budget: Budget, rnd, prop: str) -> StreamResult:
                                                    "model": script.outs[idx]})
             if len(res.disagreements) >= 10:
                 break
+    if prop == "C08":
+        nonfinite_knowledge_cases(res, rnd, tier)
     return res
 
 
-def replay(prop: str, payload: dict):
-    """re-run a recorded history on a fresh real object and compare the final bounds with a fresh object of the same knowledge"""
+def nonfinite_knowledge_cases(res, rnd, tier) -> None:
+    """Oracle on the real code only (the model's values are rationals).  Knowledge that holds INFINITE values (coalitions marked
+    infeasible with −inf): some fresh bounds then evaluate to −inf − (−inf) = NaN.  Whatever a computer makes of that, it is a
+    function of the current knowledge: two histories ending in the same knowledge give the same bound vectors (NaN = NaN here), and
+    recomputing changes nothing."""
+    import warnings
+
+    import numpy as np
+    from incomplete_cooperative.coalitions import Coalition
     from incomplete_cooperative.game import IncompleteCooperativeGame
-    from corr_table import apply_line
-    inp = payload["input"]
-    n, v, comp = inp["n"], [Fraction(x) for x in inp["v"]], inp["computer"]
-    g = IncompleteCooperativeGame(n, computer(comp))
-    log = []
-    for line in inp["history"]:
-        w = line.split()
-        if w[0] == "new" or "->" in line:
-            if "->" in line:      # "compute … -> err; setknown K" : a raising compute followed by the harness's re-synchronisation
-                ans = apply_line(g, ["compute"])
-                K = [int(x) for x in line.split("setknown", 1)[1].split()[0].split(",")]
-                from incomplete_cooperative.coalitions import Coalition
-                g.set_known_values([float(v[k]) for k in K], [Coalition(k) for k in K])
-                log.append(f"{line}  (replayed: {ans})")
+    for ci in range(9 if tier == "quick" else 90):
+        n = 4 + ci % 2
+        N = 2 ** n
+        comp = ["sa", "sac", "sam:1"][ci % 3]
+        v = [float(x) for x in (G.sam_game(n, rnd) if comp.startswith("sam") else G.sa_game(n, rnd, "int"))]
+        players = rnd.sample(range(n), 4)
+        A = (1 << players[0]) | (1 << players[1])
+        B = A | (1 << players[2]) | (1 << players[3])
+        if B == N - 1:
+            B = A | (1 << players[2])
+        v[A] = v[B] = float("-inf")
+        K = sorted(set(G.minimal_ids(n)) | {A, B} | set(rnd.sample(range(1, N - 1), 2)))
+
+        def bounds_after(history):
+            g = IncompleteCooperativeGame(n, computer(comp))
+            with warnings.catch_warnings(), np.errstate(all="ignore"):
+                warnings.simplefilter("ignore")
+                for step in history:
+                    if step[0] == "setknown":
+                        g.set_known_values([v[k] for k in step[1]], [Coalition(k) for k in step[1]])
+                    elif step[0] == "reveal":
+                        g.reveal_value(v[step[1]], Coalition(step[1]))
+                    else:
+                        g.compute_bounds()
+            return np.array(g.get_lower_bounds(), dtype=float), np.array(g.get_upper_bounds(), dtype=float)
+        hists = {"bulk": [("setknown", K), ("compute",)],
+                 "reveal-last": [("setknown", [k for k in K if k != B]), ("compute",), ("reveal", B), ("compute",)],
+                 "bulk-twice": [("setknown", K), ("compute",), ("compute",)]}
+        try:
+            outs = {name: bounds_after(h) for name, h in hists.items()}
+        except Exception as e:      # noqa: BLE001
+            res.count(f"nonfinite-knowledge:raised:{type(e).__name__}")      # a computer may refuse such knowledge: no verdict
             continue
-        log.append(f"{line} -> {apply_line(g, w)}")
-    Kn, L, U = dump_impl(g)
-    K = [c for c in range(2 ** n) if Kn[c]]
-    fresh = real_bounds(n, v, K, comp)
-    bad = isinstance(fresh, str) or fresh[1] != L or fresh[2] != U
-    if prop in ("C01", "C04") and not bad:
-        bad = any(not (L[c] <= v[c] <= U[c]) for c in range(2 ** n))
-    return bad, "\n".join(log[-10:] + [f"after the history: L={rlist(L)} U={rlist(U)}", f"fresh object, same knowledge: {fresh}"])
+        res.evaluations += 1
+        res.count("nonfinite-knowledge")
+        ref = outs["bulk"]
+        for name, (lo, hi) in outs.items():
+            if not (np.array_equal(lo, ref[0], equal_nan=True) and np.array_equal(hi, ref[1], equal_nan=True)):
+                c = int(np.flatnonzero(~((lo == ref[0]) | (np.isnan(lo) & np.isnan(ref[0]))) | ~((hi == ref[1]) | (np.isnan(hi) & np.isnan(ref[1]))))[0])
+                res.violation(f"knowledge with −inf values: the history '{name}' and the bulk history end in the same knowledge but give "
+                              f"different bounds (coalition {c}: [{lo[c]}, {hi[c]}] vs [{ref[0][c]}, {ref[1][c]}])",
+                              {"n": n, "computer": comp, "values": [repr(x) for x in v], "K": K, "minus_inf": [A, B], "history": name},
+                              key="bounds:nonfinite-knowledge")
+                return
